@@ -142,6 +142,17 @@ def gen(rng, mode="mixed"):
         rng.shuffle(cprog)
     if cprog:
         actors.append(dict(name="C", prog=cprog))
+    if iters and rng.random() < 0.6:
+        # an iterator consumer: snapshots taken at arbitrary gates of the writers (e.g. between the store of the
+        # new root and the closing of the watch channels), partial consumption, then a full one
+        it = iters[0]
+        prog = []
+        for j in range(rng.randint(2, 4)):
+            g.nsnap += 1
+            prog.append(dict(op="snap", id=g.nsnap))
+            take = -1 if j > 0 and rng.random() < 0.5 else rng.randint(0, 2)
+            prog.append(dict(op="next", it=it, src={"kind": "snap", "id": g.nsnap}, take=take, w=g.chan()))
+        actors.append(dict(name="I", prog=prog))
     names = [a["name"] for a in actors] + (["GC"] if use_gc else [])
     # schedule: bursts of one actor, so that it is parked deep inside Commit while others run
     sched = []
@@ -345,9 +356,67 @@ def gen_directed(rng):
     return [dict(op="sched", setup=setup, actors=actors, schedule=sched, finish=g.ops, gc=False, nilempty=False)]
 
 
+def gen_iterwindow(rng):
+    """A change iterator that was only partially consumed, a committer parked at a gate of Commit (in particular
+    between the store of the new root and the closing of the watch channels), and a consumer that calls Next with
+    a snapshot taken right then: what it delivers must lead exactly to that snapshot."""
+    g = DBGen(rng, "sched")
+    ntab = rng.choice([1, 2, 2])
+    for _ in range(ntab):
+        g.newtable()
+    t0 = 0
+    tx = g.begin(list(g.tables))
+    it = g.changes(tx, t0)
+    g.commit(tx)
+    # several committed changes the iterator has not seen, then a partial consumption
+    tx = g.begin([t0])
+    for pi in rng.sample(range(5), rng.randint(2, 4)):
+        g.add(op="insert", tx=tx, t=t0, obj=simple_obj(g, pi, rng.randint(1, 9)), guard=0, gsym="", w=0)
+    g.commit(tx)
+    if rng.random() < 0.5:
+        tx = g.begin([t0])
+        g.add(op="delete", tx=tx, t=t0, obj=simple_obj(g, rng.randrange(5), 0), guard=0, gsym="", w=0)
+        g.add(op="insert", tx=tx, t=t0, obj=simple_obj(g, rng.randrange(5), 2), guard=0, gsym="", w=0)
+        g.commit(tx)
+    s = g.snap()
+    g.next(it, src=g.snap_src(s), take=rng.choice([0, 1, 1, 2]))
+    setup = g.ops
+    g.ops = []
+    a_tabs = sorted(set([t0] + (rng.sample(g.tables, 1) if rng.random() < 0.5 else [])))
+    a_prog = [o for o in writer_prog(g, rng, a_tabs, ntx=1, marker=1) if o["op"] != "abort"]
+    if a_prog[-1]["op"] != "commit":
+        g.nsnap += 1
+        a_prog.append(dict(op="commit", tx=a_prog[0]["tx"], snap=g.nsnap))
+    i_prog = []
+    for j in range(3):
+        g.nsnap += 1
+        i_prog.append(dict(op="snap", id=g.nsnap))
+        i_prog.append(dict(op="next", it=it, src={"kind": "snap", "id": g.nsnap},
+                           take=-1 if j != 1 or rng.random() < 0.6 else rng.randint(0, 1), w=g.chan()))
+    actors = [dict(name="A", prog=a_prog), dict(name="I", prog=i_prog)]
+    gate = rng.choice(["commit.rootlocked", "commit.stored", "commit.stored", "commit.rootunlocked", "commit.notified",
+                       "commit.tablesunlocked"])
+    sched = ["A"] * steps_to(gate, len(a_tabs)) + ["I"] * rng.choice([2, 4, 4]) + ["A"] * rng.choice([1, 2, 20]) \
+        + ["I"] * 10 + ["A"] * 20
+    for w in list(g.wtx):
+        g.wtx.pop(w)
+    g.iters[it]["lastgen"] = 10 ** 9          # only fresh snapshots from here on
+    s = g.snap()
+    for t in g.tables:
+        g.q(g.snap_src(s), t, "id", "all", [])
+        g.scalar(g.snap_src(s), t, "rev")
+    g.chans()
+    g.iters[it]["lastgen"] = -1
+    s2 = g.snap()
+    g.next(it, src=g.snap_src(s2), take=-1)
+    g.next(it, src=g.snap_src(s2), take=-1)
+    g.iterclose(it)
+    return [dict(op="sched", setup=setup, actors=actors, schedule=sched, finish=g.ops, gc=False, nilempty=False)]
+
+
 def generate_directed(n, seed):
     rng = random.Random(seed)
-    return [gen_directed(rng) for _ in range(n)]
+    return [gen_directed(rng) if rng.random() < 0.7 else gen_iterwindow(rng) for _ in range(n)]
 
 
 def gen_gcblock(rng):
